@@ -74,6 +74,8 @@ class C14(Prop):
             'poll': st.sampled_from(['update', 'update', 'nochange']),
             # shutdown is called while a timer-driven poll is waiting for a slow service
             'inflight': st.sampled_from([False] * 24 + [True]),
+            'shutdown_on': st.sampled_from(['same', 'same', 'same', 'older_thread']),
+            'slow_send': st.sampled_from([False, False, False, True]),
         })
 
     def case_inflight(self, recipe):
@@ -168,6 +170,7 @@ class C14(Prop):
             out.nontrivial = True
         send_outcomes = list(recipe['sends'])
         sent = []
+        accepted = [0]
 
         def responder(method, raw):
             if method.endswith('poll') and recipe.get('poll') == 'nochange':
@@ -177,6 +180,8 @@ class C14(Prop):
                     TracePointConfig(ID='tp-life', path='c14_host.py', line_number=TP_LINE,
                                      args={'fire_count': '-1', 'fire_period': '0', 'log_msg': 'x={x}'}, watches=[])])
             o = send_outcomes.pop(0) if send_outcomes else 'ok'
+            if recipe.get('slow_send'):
+                time.sleep(0.03)        # the collector takes a moment: delivery is still under way when shutdown starts
             sent.append(o)
             if o == 'fail':
                 return RuntimeError('send failed')
@@ -204,6 +209,20 @@ class C14(Prop):
         ever_started = False
         tracing_on = False
         timers = []
+        older = None
+        if recipe.get('shutdown_on') == 'older_thread':
+            import queue
+            older_jobs, older_done = queue.Queue(), threading.Event()
+
+            def older_main():
+                while True:
+                    job = older_jobs.get()
+                    if job is None:
+                        return
+                    job()
+                    older_done.set()
+            older = threading.Thread(target=older_main, name='c14-older-thread', daemon=True)
+            older.start()
         try:
             sys.settrace(pre_sys)
             threading.settrace(pre_thr)
@@ -277,6 +296,7 @@ class C14(Prop):
                             from vf.props.C09 import mk_snapshot
                             try:
                                 d.push.push_snapshot(mk_snapshot())
+                                accepted[0] += 1
                             except BaseException:      # noqa
                                 pass
                         sys.settrace(cur)
@@ -296,12 +316,31 @@ class C14(Prop):
                         failing = True
                     was_started = started_model
                     n_shutdown_calls = len([c for c in world.calls if c[1] == 'shutdown'])
-                    try:
-                        d.shutdown()
-                        exc = None
-                    except BaseException as e:      # noqa
-                        exc = e
-                    cur_sys, cur_thr = sys.gettrace(), threading.gettrace()
+                    exc = None
+                    if recipe.get('shutdown_on') == 'older_thread' and older is not None:
+                        # shutdown is called by a thread that was already running when the agent started (a signal /
+                        # atexit style worker), not by the thread that called start
+                        out.cls('shutdown_from_an_older_thread')
+                        box = []
+
+                        def job():
+                            try:
+                                d.shutdown()
+                            except BaseException as e:      # noqa
+                                box.append(e)
+                        older_jobs.put(job)
+                        older_done.wait(30)
+                        older_done.clear()
+                        exc = box[0] if box else None
+                        # sys.settrace is per thread: what the calling thread's own hook is afterwards is not stated;
+                        # the process-wide hook for new threads is
+                        cur_sys, cur_thr = pre_sys, threading.gettrace()
+                    else:
+                        try:
+                            d.shutdown()
+                        except BaseException as e:      # noqa
+                            exc = e
+                        cur_sys, cur_thr = sys.gettrace(), threading.gettrace()
                     sys.settrace(pre_sys)
                     if was_started and failing:
                         out.cls('shutdown_with_failure')
@@ -335,6 +374,10 @@ class C14(Prop):
                             out.violate('after shutdown: a plugin was shut down twice')
                         if any(not f.done() for f in list(d.task_handler._pending.values())):
                             out.violate('after shutdown: accepted sends still unfinished')
+                        elif len(sent) != accepted[0]:
+                            # behavioural reading of "drains delivery": what was accepted has been handed to the channel
+                            out.violate('after shutdown: accepted snapshots have not reached the channel (not drained)',
+                                        {'accepted': accepted[0], 'reached_channel': len(sent)})
                     else:
                         if len([c for c in world.calls if c[1] == 'shutdown']) != n_shutdown_calls:
                             out.violate('a shutdown without a start did something')
@@ -363,6 +406,9 @@ class C14(Prop):
                                     'over for delivery')
         finally:
             gate.set()
+            if older is not None:
+                older_jobs.put(None)
+                older.join(10)
             try:
                 if d.started:
                     for s in specs:
